@@ -258,9 +258,9 @@ func c08SCIONPacket(tp *simcore.Tape, l4dst uint16, segLens []int, withAuth, wit
 			rand.Read(data)
 			if withTS >= 16 && tp.Bool(1, 2, "cmsgish") {
 				// looks like a control message header
-				binary.LittleEndian.PutUint64(data[0:], uint64([]int{withTS, 64, 32, 17, 16, 15, 0}[tp.Intn(7, "cmsglen")]))
-				binary.LittleEndian.PutUint32(data[8:], 1)                                                 // SOL_SOCKET
-				binary.LittleEndian.PutUint32(data[12:], uint32([]int{65, 35, 0}[tp.Intn(3, "cmsgtype")])) // SO_TIMESTAMPING_NEW / SCM_TIMESTAMPNS
+				binary.LittleEndian.PutUint64(data[0:], []uint64{uint64(withTS), 64, 32, 17, 16, 15, 8, 1, 0, 1 << 63, 1<<64 - 1}[tp.Intn(11, "cmsglen")])
+				binary.LittleEndian.PutUint32(data[8:], uint32([]int{1, 1, 0, 41}[tp.Intn(4, "cmsglevel")]))  // SOL_SOCKET, or another level
+				binary.LittleEndian.PutUint32(data[12:], uint32([]int{65, 35, 0, 2}[tp.Intn(4, "cmsgtype")])) // SO_TIMESTAMPING_NEW / SCM_TIMESTAMPNS / other
 			}
 			e.Options = append(e.Options, &slayers.EndToEndOption{OptType: scion.OptTypeTimestamp, OptData: data})
 		}
@@ -482,6 +482,7 @@ func c08KEServer(r *simcore.Run, tp *simcore.Tape) map[string]any {
 	_, pool := mkCert([]string{"unused"}, nil)
 	_ = pool
 	crafted, sentinels := 0, 0
+	var silent []*simnet.StreamConn
 	w.goSafe("driver", func() {
 		defer r.Finish()
 		for round := 0; round < 6 && r.Violation() == nil; round++ {
@@ -492,6 +493,13 @@ func c08KEServer(r *simcore.Run, tp *simcore.Tape) map[string]any {
 					return
 				}
 				crafted++
+				if tp.Bool(1, 5, "silent") {
+					// a peer that connects and then says nothing, keeping the connection open: the
+					// well-formed exchange below must be served while it is still there
+					silent = append(silent, raw)
+					r.Fault("silent-peer")
+					continue
+				}
 				if tp.Bool(1, 3, "garbage") {
 					// garbage instead of a TLS handshake
 					g := make([]byte, tp.Intn(300, "glen"))
@@ -540,7 +548,23 @@ func c08KEServer(r *simcore.Run, tp *simcore.Tape) map[string]any {
 			f.TLSConfig = *nw.cl.Auth.NTSKEFetcher.TLSConfig.Clone()
 			f.Port = fmt.Sprint(kePort)
 			f.Log = quietLog()
-			data, err := f.FetchData(context.Background())
+			var data ntske.Data
+			var err error
+			fetched := false
+			w.goSafe(fmt.Sprintf("sentinel%d", round), func() {
+				data, err = f.FetchData(context.Background())
+				fetched = true
+			})
+			// (bounded wait: a server stuck behind a silent peer never answers)
+			for k := 0; k < 40 && !fetched; k++ {
+				if r.Sleep(fmt.Sprintf("sentinel-wait:%d:%d", round, k), w.cli.Node, 250*time.Millisecond).Killed {
+					return
+				}
+			}
+			if !fetched {
+				r.Fail("C08", "ntske-server/sentinel-unanswered", "after %d hostile connections (%d of them silent and still open) a well-formed key exchange got no answer within 10 s", crafted, len(silent))
+				return
+			}
 			if err != nil || len(data.Cookie) == 0 {
 				r.Fail("C08", "ntske-server/sentinel-failed", "after %d hostile connections a well-formed key exchange failed: %v", crafted, err)
 				return
@@ -744,9 +768,10 @@ func c08SCIONReply(tp *simcore.Tape, rp *scionPkt, withAuth, withTS int) []byte 
 		data := make([]byte, withTS)
 		rand.Read(data)
 		if withTS >= 16 {
-			binary.LittleEndian.PutUint64(data[0:], uint64([]int{withTS, 64, 32, 17, 16, 0}[tp.Intn(6, "cmsglen")]))
-			binary.LittleEndian.PutUint32(data[8:], 1)
-			binary.LittleEndian.PutUint32(data[12:], uint32([]int{65, 35}[tp.Intn(2, "cmsgtype")]))
+			binary.LittleEndian.PutUint64(data[0:], []uint64{uint64(withTS), 64, 32, 17, 16, 15, 8, 1, 0, 1 << 63, 1<<64 - 1}[tp.Intn(11, "cmsglen")])
+			// level: SOL_SOCKET, or something else (0, SOL_IPV6); type: the two timestamp kinds, or another
+			binary.LittleEndian.PutUint32(data[8:], uint32([]int{1, 1, 0, 41}[tp.Intn(4, "cmsglevel")]))
+			binary.LittleEndian.PutUint32(data[12:], uint32([]int{65, 35, 0, 2}[tp.Intn(4, "cmsgtype")]))
 			if withTS >= 64 && tp.Bool(1, 2, "plausible") {
 				// a well-formed software timestamp far in the past, or with two of the three slots set
 				for i := 16; i < 64; i++ {
